@@ -943,7 +943,15 @@ def regenerate_dispatch(prim_typings):
                 value = getattr(s, "value", None)
                 if value is None:
                     continue
-                calls = [c for c in ast.walk(value) if isinstance(c, ast.Call) and isinstance(c.func, ast.Name)]
+                calls = []
+
+                def post(node):  # inner calls first: f(g(x)) runs g, then f
+                    for ch in ast.iter_child_nodes(node):
+                        post(ch)
+                    if isinstance(node, ast.Call) and isinstance(node.func, ast.Name):
+                        calls.append(node)
+
+                post(value)
                 for c in calls:
                     if c.func.id in SIDE:
                         csig = sig(funcs[c.func.id]) if c.func.id in funcs else sig(bfuncs[c.func.id])
